@@ -52,9 +52,9 @@ func c14Jobs(tier string) []string {
 	}
 	jobs = append(jobs, c14TCPJobs(tier)...)
 	// far from the last loss event (see c14far.go)
-	jobs = append(jobs, "far:2147483648")
+	jobs = append(jobs, "far:2147483648", "farrx:134217728")
 	if tier == "thorough" {
-		jobs = append(jobs, "far:1073741824", "far:3221225472", "far:4296015872")
+		jobs = append(jobs, "far:1073741824", "far:3221225472", "far:4296015872", "farrx:4362076160")
 	}
 	return jobs
 }
@@ -181,6 +181,19 @@ func c14Run(job, tier string, deadline time.Time) *engine.Result {
 		}
 		return r
 	}
+	if strings.HasPrefix(job, "farrx:") {
+		var n uint64
+		fmt.Sscanf(job, "farrx:%d", &n)
+		r.Execs, r.Nontrivial, r.States = 1, 1, 2
+		r.Transitions = int64(n / 32768)
+		if m := c14FarRx(n); m != "" {
+			r.Violations = append(r.Violations, engine.Violation{Property: "C14", Kind: "long-stream", Key: "tcp-wrap:long-stream-rx", Detail: m, Job: job, Replay: engine.MustJSON(map[string]interface{}{"farrx": n})})
+		}
+		r.Outcomes = []uint64{engine.Hash(job, len(r.Violations))}
+		r.Bound = fmt.Sprintf("one history: the peer sends %d bytes in 32 KiB segments (every 64th pair swapped), the application reads along", n)
+		r.Sample(map[string]interface{}{"farrx": r.Bound})
+		return r
+	}
 	if strings.HasPrefix(job, "far:") {
 		var n uint64
 		fmt.Sscanf(job, "far:%d", &n)
@@ -264,6 +277,15 @@ func c14Replay(rp json.RawMessage) *engine.Violation {
 			v.Property = "C14"
 		}
 		return v
+	}
+	var frx struct {
+		Far uint64 `json:"farrx"`
+	}
+	if json.Unmarshal(rp, &frx) == nil && frx.Far > 0 {
+		if m := c14FarRx(frx.Far); m != "" {
+			return &engine.Violation{Property: "C14", Kind: "long-stream", Key: "tcp-wrap:long-stream-rx", Detail: m}
+		}
+		return nil
 	}
 	var fr struct {
 		Far uint64 `json:"far"`
